@@ -168,6 +168,7 @@ class Program:
                     "test": im.get("test", False),
                     "sp": im["sp"],
                     "preds": im.get("preds", []),
+                    "trait_arg_strs": [c.tys[x]["s"] for x in im.get("trait_args", [])[1:]],
                     "items": {},
                     "names": {},
                     "consts": {},
